@@ -97,3 +97,14 @@ Fixpoint spec_get_key (m : kmap) (v : N) : option key :=
   | [] => None
   | (k, v') :: r => if v' =? v then Some k else spec_get_key r v
   end.
+
+(* what Fst::new must answer for a header-only probe of the given length and version field
+   (C10): 0 = opens, 1 = Version error, 2 = Format error, 3 = Version or Format (the text of the
+   property leaves inputs shorter than 32 bytes with an unsupported version open) *)
+Definition spec_open_class (length version : N) : N :=
+  let bad_version := (version =? 0) || (3 <? version) in
+  if length <? 8 then 2
+  else if length <? 32 then (if bad_version then 3 else 2)
+  else if bad_version then 1
+  else if (3 <=? version) && (length <? 36) then 2
+  else 0.
